@@ -104,6 +104,7 @@ def body(ctx, case):
 
 
 LAWS = [
+    given_law("power_linear_xl", cases(384), body, {"quick": 0, "thorough": 60}, shards={"quick": 1, "thorough": 16}),
     given_law("power_linear", cases(48), body, {"quick": 1200, "thorough": 12500}, shards={"quick": 3, "thorough": 16}),
     given_law("power_linear_large", cases(96), body, {"quick": 60, "thorough": 1500}, shards={"quick": 3, "thorough": 16}),
 ]
